@@ -328,18 +328,51 @@ Definition gen_encap_writes (pr : priv) (path : list N) (filtered : list bool) (
     )
 }
 
+/// the receiver's pipeline (Group::apply_update_path): the proposals' effect on the private tree comes
+/// FIRST, for every commit with a path (member commits and external commits alike), and decap then works
+/// on that provisional private tree with the leaves added by the commit excluded
+fn receiver_pipeline(gf: &File) -> String {
+    // the function lives in `impl MessageProcessor for Group<C>`
+    let mut found: Option<&ImplItemFn> = None;
+    for i in &gf.items {
+        if let Item::Impl(im) = i {
+            if im.trait_.as_ref().map(|t| flat(&t.1)).as_deref() != Some("MessageProcessor") {
+                continue;
+            }
+            for it in &im.items {
+                if let ImplItem::Fn(m) = it {
+                    if m.sig.ident == "apply_update_path" {
+                        found = Some(m);
+                    }
+                }
+            }
+        }
+    }
+    let m = found.unwrap_or_else(|| die("Group's apply_update_path not found"));
+    let st: Vec<String> = m.block.stmts.iter().map(|s| flat(s)).collect();
+    if st.first().map(|s| s.as_str()) != Some("let(mutprovisional_private_tree,_)=self.provisional_private_tree(provisional_state)?;") {
+        die(&format!("apply_update_path does not start with the provisional private tree: `{}`", st.first().cloned().unwrap_or_default()));
+    }
+    let all = st.concat();
+    if !all.contains("TreeKem::new(&mutprovisional_state.public_tree,&mutprovisional_private_tree,).decap(sender,update_path,&provisional_state.indexes_of_added_kpkgs,&context_bytes,&self.cipher_suite_provider,).await.map(|root_secret|Some((provisional_private_tree,root_secret)))") {
+        die("apply_update_path: decap is not run on the provisional private tree with the added leaves excluded");
+    }
+    "(* Group::apply_update_path: provisional_private_tree, then the public path, then decap on the\n   provisional private tree excluding the leaves the commit added *)\nDefinition gen_receiver_pipeline : list nat := [1; 2; 3]%nat.\n".to_string()
+}
+
 pub fn run(repo: &str, out: &str) {
     let pf = parse(&format!("{repo}/mls-rs/src/tree_kem/private.rs"));
     let gf = parse(&format!("{repo}/mls-rs/src/group/mod.rs"));
     let kf = parse(&format!("{repo}/mls-rs/src/tree_kem/kem.rs"));
     let s = format!(
         "(* GENERATED by rs2v privgen from mls-rs/src/tree_kem/private.rs, tree_kem/kem.rs and group/mod.rs.  Do not edit. *)\n\
-From Coq Require Import NArith List Bool Arith.\nFrom MlsV Require Import Res TreeMathGen Tree Priv.\nImport ListNotations.\nLocal Open Scope N_scope.\n\n{}\n{}\n{}\n{}\n{}",
+From Coq Require Import NArith List Bool Arith.\nFrom MlsV Require Import Res TreeMathGen Tree Priv.\nImport ListNotations.\nLocal Open Scope N_scope.\n\n{}\n{}\n{}\n{}\n{}\n{}",
         update_secrets(&pf),
         update_leaf(&pf),
         provisional(&gf),
         decap(&kf),
-        encap(&kf)
+        encap(&kf),
+        receiver_pipeline(&gf)
     );
     std::fs::write(out, s).unwrap();
 }
